@@ -98,14 +98,24 @@ func genMetrics(rng *rand.Rand, o *afmOpts, maxGlyphs int) *afm.Metrics {
 			k++
 		}
 	}
-	if rng.IntN(4) == 0 && len(names) > 0 && names[0] != ".notdef" {
-		m.Encoding[0] = names[0] // a glyph at code 0
-		for i := 1; i < 256; i++ {
-			if m.Encoding[i] == names[0] {
-				m.Encoding[i] = ".notdef"
+	if rng.IntN(4) == 0 {
+		// a glyph at code 0 (and at codes 1, 2), also when .notdef is a glyph of its own
+		at := 0
+		for _, nm := range names {
+			if nm == ".notdef" || at > 2 || (at > 0 && rng.IntN(2) == 0) {
+				continue
 			}
+			for i := 0; i < 256; i++ {
+				if m.Encoding[i] == nm {
+					m.Encoding[i] = ".notdef"
+				}
+			}
+			m.Encoding[at] = nm
+			at++
 		}
-		o.f("glyph at code 0")
+		if at > 0 {
+			o.f("glyph at code 0")
+		}
 	}
 	if !o.representable {
 		switch rng.IntN(5) {
